@@ -468,6 +468,9 @@ def bookStep (d : DState) (args : List String) : DState × String :=
   | ["new"] => ({ d with book := Book.empty }, "ok")
   | ["add", host, port] =>
     ({ d with book := { b with disconnected := b.disconnected.set ⟨host, port.toNat!, true⟩ ⟨none, 0⟩ } }, "ok")
+  | ["ttc", ban, last, now] =>
+    -- `is_time_to_connect` on a waiting peer with this failure count and last attempt ("-" = never)
+    (d, if isTimeToConnect P ban.toNat! (if last == "-" then none else last.toInt?) now.toInt! then "1" else "0")
   | ["step", now] => ({ d with book := Book.apply P b (.step now.toInt!) }, "ok")
   | ["incoming", host, port] => ({ d with book := Book.apply P b (.incoming host port.toNat!) }, "ok")
   | ["hello", host, port, outg, mine, myPort] =>
